@@ -3,6 +3,7 @@
 package names
 
 import (
+	"crypto/x509/pkix"
 	"sort"
 	"strconv"
 	"strings"
@@ -42,4 +43,11 @@ func VerifX500AttrTypes() [][2]string {
 		return out[i][0] < out[j][0]
 	})
 	return out
+}
+
+// VerifParseRawDN exposes the decoding step of FromRawDN: the RDN sequence it renders,
+// or false when it falls back to hex.
+func VerifParseRawDN(dn []byte) (pkix.RDNSequence, bool) {
+	rdns, err := parseRawDN(dn)
+	return rdns, err == nil
 }
